@@ -8,7 +8,10 @@ import (
 	"encoding/json"
 	"errors"
 	"fmt"
+	"regexp"
+	"runtime"
 	"sort"
+	"strconv"
 	"strings"
 	"sync"
 	"testing"
@@ -319,6 +322,47 @@ type callerState struct {
 	cancelled bool
 	coords    []shwap.SampleCoords
 	reply     chan outcome
+	gidCh     chan int64 // the goroutine running the call reports its id here
+	goid      int64
+}
+
+// ---- proving that a caller is blocked: goroutine states from the runtime
+
+var goroutineHdr = regexp.MustCompile(`(?m)^goroutine (\d+) \[([^\]]*)\]`)
+
+func curGoid() int64 {
+	var buf [64]byte
+	n := runtime.Stack(buf[:], false)
+	f := strings.Fields(string(buf[:n]))
+	if len(f) < 2 {
+		return 0
+	}
+	id, _ := strconv.ParseInt(f[1], 10, 64)
+	return id
+}
+
+// goroutineStates returns the scheduler state ("select", "chan receive", "running", ...) of
+// every live goroutine.
+func goroutineStates() map[int64]string {
+	buf := make([]byte, 1<<20)
+	for {
+		n := runtime.Stack(buf, true)
+		if n < len(buf) {
+			buf = buf[:n]
+			break
+		}
+		buf = make([]byte, 2*len(buf))
+	}
+	out := map[int64]string{}
+	for _, m := range goroutineHdr.FindAllSubmatch(buf, -1) {
+		id, _ := strconv.ParseInt(string(m[1]), 10, 64)
+		out[id] = string(m[2])
+	}
+	return out
+}
+
+func parkedState(st string) bool {
+	return !(strings.HasPrefix(st, "running") || strings.HasPrefix(st, "runnable") || strings.HasPrefix(st, "syscall"))
 }
 
 type config struct {
@@ -349,12 +393,15 @@ type harness struct {
 	mon    *monitor
 	wd     time.Duration
 	broken string // harness-level failure (inconclusive)
-	wg     sync.WaitGroup
-	steps  int
+	// cwHolder[height] = the caller that held the session when a waiter for that height was cancelled
+	cwHolder map[int]int
+	wg       sync.WaitGroup
+	steps    int
 }
 
 func newHarness(cfg config, fix *fixture, mon *monitor) *harness {
-	h := &harness{cfg: cfg, fix: fix, events: make(chan event, 256), disk: newDisk(), mon: mon, wd: 60 * time.Second}
+	h := &harness{cfg: cfg, fix: fix, events: make(chan event, 256), disk: newDisk(), mon: mon, wd: 60 * time.Second,
+		cwHolder: map[int]int{}}
 	for i := range h.call {
 		h.call[i] = &callerState{phase: "idle"}
 	}
@@ -404,6 +451,15 @@ func (h *harness) held(ht int) bool {
 	return false
 }
 
+func (h *harness) holder(ht int) int {
+	for c := 1; c <= nCallers; c++ {
+		if h.call[c].phase == "inGetter" && h.call[c].height == ht {
+			return c
+		}
+	}
+	return 0
+}
+
 // quiescent: every running caller is provably blocked (its height's session is owned by a
 // caller that sits in the gated getter) -- nothing can happen until the harness acts.
 func (h *harness) quiescent() bool {
@@ -421,12 +477,73 @@ func (h *harness) quiescent() bool {
 }
 
 func (h *harness) settle() {
-	for h.broken == "" && !h.quiescent() {
+	for h.broken == "" {
+		if !h.quiescent() {
+			select {
+			case e := <-h.events:
+				h.handle(e)
+			case <-time.After(h.wd):
+				h.broken = fmt.Sprintf("watchdog: no event within %v while callers are running: %s", h.wd, h.describe())
+			}
+			continue
+		}
+		// By the session discipline every running caller is now blocked behind a caller that sits
+		// in the gated getter.  Do not take that for granted: wait until the runtime reports each
+		// of them parked (so a cancellation really hits a WAITING caller, and a caller that got
+		// past the session although the height is busy has already announced itself), then look
+		// at what arrived meanwhile.
+		h.confirmBlocked()
+		if !h.drainNow() {
+			return
+		}
+	}
+}
+
+// drain handles every event that is already there; reports whether there was any.
+func (h *harness) drainNow() bool {
+	any := false
+	for h.broken == "" {
 		select {
 		case e := <-h.events:
 			h.handle(e)
-		case <-time.After(h.wd):
-			h.broken = fmt.Sprintf("watchdog: no event within %v while callers are running: %s", h.wd, h.describe())
+			any = true
+		default:
+			return any
+		}
+	}
+	return any
+}
+
+// confirmBlocked waits (bounded) until every running caller's goroutine is parked or gone.
+func (h *harness) confirmBlocked() {
+	deadline := time.Now().Add(5 * time.Second)
+	for c := 1; c <= nCallers; c++ {
+		cs := h.call[c]
+		if cs.phase != "running" {
+			continue
+		}
+		if cs.goid == 0 && cs.gidCh != nil {
+			select {
+			case cs.goid = <-cs.gidCh:
+			case <-time.After(time.Until(deadline)):
+			}
+		}
+		ok := false
+		for cs.goid != 0 {
+			st, alive := goroutineStates()[cs.goid]
+			if !alive || parkedState(st) {
+				ok = true
+				break
+			}
+			if time.Now().After(deadline) {
+				break
+			}
+			time.Sleep(200 * time.Microsecond)
+		}
+		if ok {
+			h.mon.rep.Count("blocked_callers_confirmed_parked", 1)
+		} else {
+			h.mon.rep.Count("blocked_callers_not_confirmed", 1)
 		}
 	}
 }
@@ -460,6 +577,11 @@ func (h *harness) handle(e event) {
 	case evReturn:
 		h.mon.onReturn(h, e)
 		cs.phase = "idle"
+		for ht, ho := range h.cwHolder {
+			if ho == e.caller {
+				delete(h.cwHolder, ht)
+			}
+		}
 		if cs.cancel != nil {
 			cs.cancel()
 		}
@@ -476,7 +598,12 @@ func (h *harness) doCall(c, ht int) bool {
 	}
 	ci := &callerInfo{id: c, epoch: h.epoch}
 	ctx, cancel := context.WithCancel(context.WithValue(context.Background(), callerKey{}, ci))
-	*cs = callerState{phase: "running", height: ht, cancel: cancel}
+	if ho := h.holder(ht); ho != 0 && h.cwHolder[ht] == ho {
+		// the situation of interest: A in the getter, a waiter behind it gave up, a further call arrives
+		h.mon.rep.Count("call_after_cancelled_waiter", 1)
+	}
+	gidCh := make(chan int64, 1)
+	*cs = callerState{phase: "running", height: ht, cancel: cancel, gidCh: gidCh}
 	h.emit("call", "c", c, "h", ht)
 	h.mon.onCall(h, c, ht)
 	hc := *h.fix.hdr[ht] // every caller holds its own header object, as callers in the node do
@@ -484,6 +611,7 @@ func (h *harness) doCall(c, ht int) bool {
 	h.wg.Add(1)
 	go func() {
 		defer h.wg.Done()
+		gidCh <- curGoid()
 		var err error
 		if p, v := recoverPanic(func() { err = av.SharesAvailable(ctx, hdr) }); p {
 			err = fmt.Errorf("PANIC: %s", v)
@@ -546,6 +674,12 @@ func (h *harness) doCancel(c int) bool {
 		return false
 	}
 	cs.cancelled = true
+	if cs.phase == "running" {
+		if ho := h.holder(cs.height); ho != 0 {
+			h.cwHolder[cs.height] = ho
+			h.mon.rep.Count("waiter_cancelled", 1)
+		}
+	}
 	h.emit("cancel", "c", c)
 	cs.cancel()
 	h.settle()
@@ -614,6 +748,7 @@ func (h *harness) doCrash() bool {
 		*cs = callerState{phase: "idle"}
 	}
 	h.disk = snap
+	h.cwHolder = map[int]int{}
 	h.newInstance()
 	h.emitDisk("crash")
 	return true
